@@ -33,6 +33,8 @@ def _fmt_number(rng, v, style):
         if kind == "nopoint" and v != 0.0:  # integer mantissa with a signed exponent: 3E+00, -2D-01
             tok = "%.0E" % v
             return tok.replace("E", rng.choice(["E", "D"]))
+        if rng.random() < 0.02:  # magnitudes at the edge of the double range are numbers too
+            return rng.choice(["1.5E+300", "2.5E-310", "1.0D+308"]) if v >= 0 else "-1.5E+300"
         if kind == "long":  # more digits than a double holds
             return "%.24f" % v if abs(v) < 1e6 else "%.7f" % v
         if kind == "negzero" and v == 0.0:
